@@ -12,7 +12,7 @@ chk("C18","model_checking",
  "wall clock owned by interposing clock_gettime; sched_yield advances the injected clock so the spin-wait terminates",
  "explicit-state search of the real transition function + bounded exhaustive histories","unitx+histx","DESIGN.md §3 C18")
 chk("C02","exploration",
- "product-mode enumeration on the real engine: data multisets x 10 storage layouts (memory, L0 x1/xn, L1, L2, mixed, WAL-recovered, segment-recovered) x configurations x a predicate alphabet; each answer is compared with a reference evaluator and with the same query's answer in every other layout",
+ "product-mode enumeration on the real engine: data multisets x 10 storage layouts (memory, L0 x1/xn, L1, L2, mixed, WAL-recovered, segment-recovered) x configurations x a predicate alphabet, and a second part in which rows of a second event type share memtables, segments and zones with the queried one; each answer is compared with a reference evaluator and with the same query's answer in every other layout",
  "reference semantics written from the documentation; null-dependent predicates judged by cross-layout agreement only; one pinned hash seed; known findings are exact cases with committed digests (known/C02.*.json)",
  "bounded exhaustive enumeration of data x layout x query against a reference model and a cross-layout differential oracle","histx product mode","DESIGN.md §2.5 §3 C02")
 chk("C19","fault_enumeration",
@@ -76,6 +76,6 @@ chk("C13","model_checking",
  "TCP gate driven through hook H7 (HTTP / WebSocket gates not driven); one-directional oracle; reference matrix written from the statement",
  "explicit-state search over a reference authorisation machine with every state replayed against the real gate and dispatcher","authx","DESIGN.md §3 C13")
 chk("C08","exploration",
- "zones holding every multiset of 3 positions of a 14-value alphabet per kind (plus segments of 1, 3, 11, 12 zones) are planned and written through ZonePlanner::plan + ZoneWriter::write_all; every structure file (zone SuRF, per-zone and per-field membership filters, enum bitmaps, calendar, per-zone time index, context index) is loaded and probed with every alphabet value, absent values and cross-kind literals under every operator; a zone holding a match that is not listed is a violation",
+ "zones holding every multiset of 3 positions of a 14-value alphabet per kind (plus segments of 1, 3, 11, 12 zones) are planned and written through ZonePlanner::plan + ZoneWriter::write_all; every structure file (zone SuRF, per-zone and per-field membership filters, enum bitmaps, calendar, per-zone time index, context index) is loaded and probed with every alphabet value, absent values and cross-kind literals under every operator; then the same kinds of zones are STOREd and FLUSHed through the real shard and every probe `field op literal` is planned by the real QueryPlan and answered by the real ZoneCollector (strategy choice + pruners + combination); a zone holding a match that is not listed / not a candidate is a violation",
  "probe keys are built as the range pruner builds them; the per-field temporal calendar is only covered end to end (C02/C16); exact (class -> digest) known findings in known/C08.*.json",
  "bounded exhaustive input enumeration against a brute-force scan, on the real builders and probes","unitx","DESIGN.md §3 C08")
